@@ -745,6 +745,10 @@ package rewriter
 //@   -- appended to the body); a `continue` delivered to that Combine skips its second half, so this is exact only when no
 //@   -- continue targets the loop.
 //@   ensures[local:lowering-S1] !trivalPost ==> !LoopBodyHasContinue(stmt)
+//@   -- S3 (D29): when the rewritten body ends in a native statement the yielding post is appended *inside* the body block, where the
+//@   -- names the body declares are in scope; in the source the post statement is outside the body's scope. Exact only when the post
+//@   -- mentions no name that the body declares (PostUsesBodyScope, ghost).
+//@   ensures[local:lowering-S3] !trivalPost && BLen(body) > 0 && BKind(body, BLen(body) - 1) != kindCombine ==> !PostUsesBodyScope(stmt)
 //@   -- native code stays native (C17, compile side): a loop without yields is pushed as the native statement it is
 //@   ensures[local:native-kept] !HasYield(old(stmt.Init)) && !HasYield(old(stmt.Post)) && AllPlain(body)
 //@        ==> res == children && BKind(children, BLen(children) - 1) == kindTrival && BStmt(children, BLen(children) - 1) == stmt
@@ -979,6 +983,11 @@ package rewriter
 //@   requires isa(cursorNode(c), IndexExpr) ==> !isnil(cursorNode(c))
 //@   ensures[descend] ok
 //@   ensures[only-iterator-types] !(isa(cursorNode(c), IndexExpr) && IsIterType(typeOfExpr(as(cursorNode(c), IndexExpr).X))) ==> W == old(W)
+//@   -- D28: the implicit name of an embedded field is the name of its type: co.Iter[T] embedded in a struct is the field `Iter`,
+//@   -- seq.Iterator[T] is the field `Iterator`, so references by field name (h.Iter, holder{Iter: …}) no longer resolve.
+//@   -- EmbeddedFieldType(c): the cursor stands on the type of an embedded struct field (ghost)
+//@   ensures[embedded-field-name] isa(cursorNode(c), IndexExpr) && IsIterType(typeOfExpr(as(cursorNode(c), IndexExpr).X)) && EmbeddedFieldType(c)
+//@        ==> isa(lastReplaced(W), IndexExpr) && RefersTo(as(lastReplaced(W), IndexExpr).X, cstAPIReturnType)
 //@   modifies W
 
 //@ pred GenSig(t *ast.FuncType) := t != nil && t.Results != nil && len(t.Results.List) > 0 && t.Results.List[0] != nil && WfExpr(t.Results.List[0].Type)
